@@ -394,7 +394,7 @@ def main():
         "level": args.level,
         "coverage": {
             "evaluations": len(jobs),
-            "distinct_nontrivial": len([1 for (w, key) in work if w[2]["items"]]),
+            "distinct_nontrivial": len([1 for (w, key) in work if w[2]["items"]]) + sum(len(w[2].get("raw", [])) for (w, key) in work),
             "rule": "one evaluation = one scenario (call skeleton x error plan x capacities x shadow curve) executed symbolically through the real generic code; distinct_nontrivial = number of distinct solver queries (deduplicated by text) with at least one non-syntactic obligation",
             "samples": samples,
             "obligations": obligations,
